@@ -44,6 +44,10 @@ type Guarded struct {
 	// 0 means all. Suspects beyond the bound are counted in UnconfirmedSuspects.
 	MaxConfirm          int
 	UnconfirmedSuspects int
+	// MaxSuspects (default 48) ends the enumeration once that many cases killed or hung their
+	// worker: each of them costs a full horizon, and a defect that hangs most inputs must end in a
+	// report, not in hours of waiting. The cases not run are recorded as a cap.
+	MaxSuspects int
 }
 
 // GuardedWorkerMain must be called early in main: when the process is a guarded worker it runs
@@ -239,9 +243,17 @@ func (g *Guarded) RunParent(r *Run, onResult func(GuardedResult)) []Suspect {
 			defer wg.Done()
 			for {
 				mu.Lock()
-				if len(queue) == 0 || r.Expired() {
+				maxS := g.MaxSuspects
+				if maxS == 0 {
+					maxS = 48
+				}
+				if len(queue) == 0 || r.Expired() || len(suspects) >= maxS {
 					if len(queue) > 0 {
-						r.Cap(fmt.Sprintf("guarded cases not run: %d chunks left at the internal deadline", len(queue)))
+						why := "at the internal deadline"
+						if len(suspects) >= maxS {
+							why = fmt.Sprintf("after %d cases killed or hung their worker", len(suspects))
+						}
+						r.Cap(fmt.Sprintf("guarded cases not run: %d chunks left %s", len(queue), why))
 						queue = nil
 					}
 					mu.Unlock()
